@@ -91,9 +91,17 @@ func genSuggestUser(r *RNG, common []string) *sCase {
 	}
 	nmod := r.Intn(3)
 	mods := []string{"Mixa", "Mixb"}[:nmod]
+	var moduleFunctions []string // def self.x of a module: answered by the module only
 	for _, m := range mods {
 		emit("module " + m)
 		def("  ", strings.ToLower(m)+"_m")
+		if r.Bool() {
+			n := strings.ToLower(m) + "_modfn"
+			emit("  def self." + n)
+			emit("    1")
+			emit("  end")
+			moduleFunctions = append(moduleFunctions, n)
+		}
 		emit("end")
 	}
 	names := []string{"Alpha", "Beta", "Gamma", "Delta"}
@@ -114,11 +122,23 @@ func genSuggestUser(r *RNG, common []string) *sCase {
 		}
 		emit(head)
 		for _, m := range mods {
-			if r.Chance(1, 3) {
+			switch r.Intn(8) {
+			case 0, 1:
 				emit("  include " + m)
 				c.inc = append(c.inc, m)
-			} else if r.Chance(1, 4) {
+			case 2:
 				emit("  extend " + m)
+				c.ext = append(c.ext, m)
+			case 3:
+				// both, in either order
+				if r.Bool() {
+					emit("  include " + m)
+					emit("  extend " + m)
+				} else {
+					emit("  extend " + m)
+					emit("  include " + m)
+				}
+				c.inc = append(c.inc, m)
 				c.ext = append(c.ext, m)
 			}
 		}
@@ -193,12 +213,14 @@ func genSuggestUser(r *RNG, common []string) *sCase {
 		sc.Recv = "obj"
 		sc.Must = instNames
 		sc.MustNot = append(append(append([]string{"stranger_i", "stranger_s", "stranger_p"}, hiddenOfOthers...), below...), minus(staticNames, instNames)...)
+		sc.MustNot = append(sc.MustNot, moduleFunctions...)
 		sc.UpperValue = true
 	} else {
 		sc.Kind = "user-class"
 		sc.Recv = target.name
 		sc.Must = append(staticNames, "new")
 		sc.MustNot = append(append([]string{"stranger_i", "stranger_s", "stranger_p"}, below...), minus(instNames, staticNames)...)
+		sc.MustNot = append(sc.MustNot, moduleFunctions...)
 		sc.Common = nil
 	}
 	emit(sc.Recv + ".")
